@@ -315,6 +315,17 @@ func bodyLen(rnd *rand.Rand) int {
 	return rnd.Intn(300)
 }
 
+// doneBroken counts cases in which Done() stayed open for the full wait after Shutdown was called;
+// once that is established, later cases wait only briefly (keeps a broken tree from taking an hour).
+var doneBroken atomic.Int32
+
+func doneWait() time.Duration {
+	if doneBroken.Load() >= 3 {
+		return 300 * time.Millisecond
+	}
+	return 15 * time.Second
+}
+
 func waitCh(ch <-chan struct{}, d time.Duration) bool {
 	select {
 	case <-ch:
@@ -471,7 +482,7 @@ func runCase(r *mon.Run, i int) {
 
 	doneClosed := false
 	if cfg.WaitDone || stalled != "" {
-		doneClosed = waitCh(doneCh, 15*time.Second)
+		doneClosed = waitCh(doneCh, doneWait())
 	}
 	// release phase: gates and client actions in PRNG order
 	type item struct {
@@ -527,8 +538,9 @@ func runCase(r *mon.Run, i int) {
 	slow := false
 	if !returned {
 		// Done() must be closed by now if Shutdown is in progress; done-waiting handlers hold Shutdown otherwise
-		if !waitCh(doneCh, 15*time.Second) {
-			r.Violation(i, "done-not-closed", "Shutdown was called >15 s ago and has not returned, yet the Done() channel of the server is still open", cfg)
+		if !waitCh(doneCh, doneWait()) {
+			doneBroken.Add(1)
+			r.Violation(i, "done-not-closed", "Shutdown was called long ago (>= 4 s, up to 19 s) and has not returned, yet the Done() channel of the server is still open", cfg)
 			cleanup()
 			return
 		}
@@ -703,6 +715,13 @@ func runCase(r *mon.Run, i int) {
 		}
 	}
 	r.Event("late_requests_handled_during_shutdown", lateHandled)
+	// trace only (not a property obligation): the first request of a pipelined pair finished after
+	// shutdown had begun, and the server still went on to the second one instead of stopping
+	for _, c := range clients {
+		if c.Sit == "pipe" && doneClosed && c.reqs[0].started.Load() && c.reqs[1].started.Load() {
+			r.Event("pipelined_second_request_started_after_shutdown_began", 1)
+		}
+	}
 	cleanup()
 
 	sits := append([]string(nil), cfg.Sits...)
@@ -746,7 +765,7 @@ func TestC15(t *testing.T) {
 		"wp.serve.beforesend": true, "wp.release.enter": true, "wp.stop.enter": true}
 	p.Install()
 	defer sched.Uninstall()
-	n := r.N(600, 20_000)
+	n := r.N(600, 30_000)
 	mon.Parallel(n, 2*runtime.GOMAXPROCS(0), func(i int) {
 		if !r.Want(i) {
 			return
